@@ -61,8 +61,15 @@ impl<'b> Satisfier<'b, XOnlyPublicKey> for Sat<'_, 'b> {
 
 pub fn replay(path: &str) {
     let mut out = Out::stdout();
-    let secp_ctx = secp::Secp256k1::new();
     for (k, c) in read_ndjson(path).iter().enumerate() {
+        out.emit(&json!({"k": k, "got": one(c)}));
+    }
+}
+
+/// everything C16 looks at for one case (also used as a thread workload by C20)
+pub fn one(c: &J) -> J {
+    let secp_ctx = secp::Secp256k1::new();
+    {
         let got = guarded(|| {
             let pol = policy_of(&c["pol"]);
             let height = c["height"].as_u64().unwrap() as u32;
@@ -114,6 +121,6 @@ pub fn replay(path: &str) {
             rec
         })
         .unwrap_or_else(|p| json!({"panic": p}));
-        out.emit(&json!({"k": k, "got": got}));
+        got
     }
 }
